@@ -32,7 +32,7 @@ ASSUMPTIONS = [
     'perftrack steps run with the cyclic garbage collector disabled in the child so that the outcome is a deterministic '
     'function of the history (see the known finding about trainer liveness)',
 ]
-FLOORS = {'cross-process-load': 0.6, 'incremental': 0.3, 'serve': 0.1, 'perftrack': 0.05, 'explicit-generation': 0.1, 'same-process-use': 0.08, 'train-without-sink': 0.35}
+FLOORS = {'cross-process-load': 0.6, 'incremental': 0.3, 'serve': 0.1, 'perftrack': 0.05, 'explicit-generation': 0.1, 'same-process-use': 0.08, 'train-without-sink': 0.25}
 LEVEL_TEXT = (
     'Generated-history search against a reference model: every stateful actor is an uninterpreted symbol whose state term '
     'records which actor trained it, on what data and on top of which previous state, so after every apply/eval/serve step '
